@@ -96,6 +96,35 @@ Definition V_delimiter := Eval vm_compute in tx "delimiter".
 Definition V_baseContainer := Eval vm_compute in tx "baseContainer".
 Definition V_textContainer := Eval vm_compute in tx "textContainer".
 
+(* ---- style values (C04 styling, C05) ------------------------------------------------------------------------
+   lengths carry the number of their unit in LengthType.Units (em 0, % 1, rh 2, rw 3, c 4, px 5) *)
+Record len := mkLen { l_val : Q ; l_unit : Z }.
+Definition color := (Z * Z * Z * Z)%type.
+Inductive sval :=
+  | SColor (c : color)
+  | SEnum (ord : Z)                       (* member number in the enumeration of the property *)
+  | SLen (l : len)
+  | SNormal | SNone                       (* SpecialValues *)
+  | SExtent (w h : len)
+  | SOrigin (x y : len)
+  | SPadding (b e a s : len)
+  | SPosition (he : Z) (ho : len) (ve : Z) (vo : len)
+  | SBool (b : bool)
+  | SInt (n : Z)                          (* a number given as int *)
+  | SFrac (q : Q)                         (* a number given as Fraction (not integral) *)
+  | STextDec (u l o : option bool)
+  | SEmph (style : Z) (c : option color) (pos : Z)
+  | SOutline (c : option color) (th : len)
+  | SShadows (l : list (len * len * option len * option color))
+  | SReserve (pos : Z) (l : option len)
+  | SFonts (fs : list (bool * text)).     (* (generic?, name) *)
+
+
+(* a specified style value as the reader stores it: parsed by the model, or (properties whose value syntax is not
+   modelled: tts:fontFamily, tts:opacity, tts:luminanceGain) the number the harness gave to the value *)
+Inductive sv := SV (v : sval) | SO (id : Z).
+Definition sdict := list (Z * sv).       (* property number -> value, in insertion order (a Python dict) *)
+
 (* ---- the canonical-model tree the reader builds / the writer starts from (timing view) ---- *)
 Inductive ekind := KBody | KDiv | KP | KSpan | KRuby | KRb | KRt | KRp | KRbc | KRtc | KBr | KSet | KRegion | KText.
 
@@ -105,14 +134,14 @@ Definition ekind_code (k : ekind) : Z :=
 Definition ekind_eqb (a b : ekind) : bool := ekind_code a =? ekind_code b.
 
 
-(* an animation step as read: attribute name, raw value, begin, end (relative to the parent) *)
-Definition anim := (qname * text * Q * option Q)%type.
+(* an animation step as read: property number, value, begin, end (relative to the parent) *)
+Definition anim := (Z * sv * Q * option Q)%type.
 
 (* the canonical-model tree built by the reader (timing view) *)
 Inductive mnode :=
   | MText (t : text)
   | MElem (k : ekind) (rid : option text) (b e : option Q) (preserve : bool) (lang : text)
-          (region : option text) (anims : list anim) (cs : list mnode).
+          (region : option text) (styles : sdict) (anims : list anim) (cs : list mnode).
 
-Definition m_kind (n : mnode) : ekind := match n with MText _ => KText | MElem k _ _ _ _ _ _ _ _ => k end.
+Definition m_kind (n : mnode) : ekind := match n with MText _ => KText | MElem k _ _ _ _ _ _ _ _ _ => k end.
 
